@@ -226,7 +226,21 @@ def impl(c):
         bare_ok = got == [vals[k] for k in SIX] and all(bare[k] == vals[k] and getattr(bare, k.lower()) == vals[k] for k in SIX)
         if not bare_ok:
             bare_ok = ["assigned in order %s" % order, "serialised fields %s" % got]
-    return {"results": rs, "items": items, "eq_fresh": same, "ser_fresh": ser_same, "ser_fields": ser_fields, "ser_items": ser_items, "bare_ok": bare_ok}
+    # equality sees exactly the mapping's content: a copy that differs in one value by a trailing blank (or a line break in front) is not equal
+    ws_ok = True
+    import copy as _copy
+    for k, v in list(o.items()):
+        if isinstance(v, str):
+            for v2 in (v + " ", "\n" + v):
+                o2 = _copy.deepcopy(o)
+                try:
+                    o2[k] = v2
+                except Exception:
+                    continue
+                if (o == o2) or not (o != o2):
+                    ws_ok = ["key %s: %r vs %r" % (k, v, v2), "== gives %s, != gives %s" % (o == o2, o != o2)]
+            break
+    return {"results": rs, "items": items, "eq_fresh": same, "ser_fresh": ser_same, "ser_fields": ser_fields, "ser_items": ser_items, "bare_ok": bare_ok, "ws_ok": ws_ok}
 
 
 def enc_op(kind, op):
@@ -283,7 +297,7 @@ def model(c, ans):
     items = [[S(k), dval(v)] for k, v in mf]
     six = [dict((k, v) for k, v in items).get(k) for k in SIX] if c["kind"] == "smchart" else None
     return {"results": out, "items": items, "eq_fresh": True, "ser_fresh": True,
-            "ser_fields": [x.strip() for x in six] if six else None, "ser_items": expected_ser_items(c["kind"], items), "bare_ok": True}
+            "ser_fields": [x.strip() for x in six] if six else None, "ser_items": expected_ser_items(c["kind"], items), "bare_ok": True, "ws_ok": True}
 
 
 def expected_ser_items(kind, items):
@@ -354,6 +368,8 @@ def oracle(c, o):
     want = expected_ser_items(kind, [[k, v] for k, v in d.items()])
     if o.get("ser_items") != want:
         return "the serialisation lists %s, the mapping holds %s" % (o.get("ser_items"), want)
+    if o.get("ws_ok") is not True:
+        return "two objects whose mappings differ only by white space in one value compare equal: %s" % (o.get("ws_ok"),)
     if o.get("bare_ok") is not True:
         return "an SM chart built empty and filled in another field order: %s" % (o.get("bare_ok"),)
     if kind == "smchart" and o["ser_fields"] != [(d[k] or "").strip() for k in SIX]:
